@@ -315,6 +315,14 @@ func allChecks() []CheckSpec {
 				{Fn: "verifC13TCPSiblingWrite", Lemma: "TCP mux: two handles of one ufrag share a tcpPacketConn with an attached TCP connection; one user leaves — plainly, or the way candidateBase.abortIO does (SetDeadline(now), then Close) — and the sibling's writes to the peer still go out",
 					Bounds: "one attached peer, symbolic payload, leave by Close or by SetDeadline(now)+Close; the fake connection fails writes once a write deadline at or before now is set", MustReach: []string{"abort-then-close", "done"},
 					Cfg: func(c *HarnessCfg, tier int) { c.GoPolicy = "queue" }},
+				{Fn: "verifC13GetAfterLastClose", Lemma: "schedule exploration over the real UDPMuxDefault.GetConn, the shared handle's Close and the close watcher: a connection handed out after the last handle of the previous one was closed is usable (a write through it succeeds), whether or not the watcher that unregisters the closed connection has run yet",
+					Bounds: "one ufrag, 0..2 fair hand-overs between Close and GetConn, at most 1 (thorough 2) preemptions", MustReach: []string{"closed-conn-still-registered", "watcher-already-ran", "done"},
+					Cfg: func(c *HarnessCfg, tier int) {
+						c.GoPolicy = "explore"
+						c.ContextBound = 1 + tier
+						c.MaxPaths = 2000000
+						c.MaxWallS = 900
+					}},
 				{Fn: "verifC13AbortProtocol", Lemma: "write-abort protocol at method granularity on the real startWriteContext/finishWrite/abortWrite: abort without a writer in flight touches neither the state word nor the socket; the last finishing writer clears an armed deadline and the word returns to 0; a failed arming clears the flags; the in-flight count is exact and never underflows; a write starting while an abort is pending does not enter; after all writers returned later writes enter and the last deadline set is 'none'",
 					Bounds: "4 (quick) / 6 (thorough) calls from {start write, finish write, abort}, SetWriteDeadline succeeding or failing", MustReach: []string{"start-while-blocked", "last-writer-after-abort", "abort-noop", "arming-failed", "armed", "done"},
 					Cfg: func(c *HarnessCfg, tier int) { c.GoPolicy = "queue" }},
